@@ -19,6 +19,8 @@ type concReplayFile struct {
 	Replay   struct {
 		Scenario string `json:"scenario"`
 		Schedule []int  `json:"schedule"`
+		// sequential cases (C34 start states)
+		c34SeqReplay
 	} `json:"replay"`
 	Signature string `json:"signature"`
 }
@@ -33,6 +35,21 @@ func ReplayConc(path string) int {
 		return 2
 	}
 	var f concReplayFile
+	if err := json.Unmarshal(b, &f); err == nil && f.Property == "C34" && f.Replay.Scenario == "" && f.Replay.Kind != "" {
+		verdict, err := c34ReplaySequential(f.Replay.c34SeqReplay)
+		if err != nil {
+			fmt.Println("ENGINE-ERROR", err)
+			return 2
+		}
+		if len(verdict) == 0 {
+			fmt.Println("replay: oracle silent")
+			return 0
+		}
+		for _, v := range verdict {
+			fmt.Printf("replay: %s: %s\n", v[0], v[1])
+		}
+		return 1
+	}
 	if err := json.Unmarshal(b, &f); err != nil || f.Replay.Scenario == "" {
 		fmt.Println("ENGINE-ERROR not a schedule replay file:", path)
 		return 2
